@@ -22,15 +22,18 @@ def inc_seqs(T):
     return out
 
 
-def kernel_batch(thetas, bins, rng, tdtype="float64", bin_den=1):
+def kernel_batch(thetas, bins, rng, tdtype="float64", bin_den=1, affine=(0.0, 1.0)):
     """several columns (same n) in one kernel call per unit vector; returns per-column W and linearity probe"""
     import numpy as np
     from xgcm.transform import interp_1d_conservative
 
-    th = np.array(thetas, dtype="float64").astype(tdtype)       # integers: exact in every dtype used
+    base, eps = affine
+    # overlap fractions are invariant under theta -> base + eps * theta (exact in binary for the values used): columns
+    # whose target values are large and differ only far behind the point are the same columns to the property
+    th = (base + eps * np.array(thetas, dtype="float64")).astype(tdtype)       # integers: exact in every dtype used
     ncol, n1 = th.shape
     n = n1 - 1
-    b = np.array(bins, dtype="float64") / bin_den
+    b = base + eps * np.array(bins, dtype="float64") / bin_den
     W = [[None] * n for _ in range(ncol)]
     for i in range(n):
         phi = np.zeros((ncol, n))
@@ -41,36 +44,45 @@ def kernel_batch(thetas, bins, rng, tdtype="float64", bin_den=1):
     phis = [[rng.randint(-5, 5) for _ in range(n)] for _ in range(ncol)]
     out = interp_1d_conservative(np.array(phis, dtype="float64"), th, b)
     lin = [[model.enc_rat(v) for v in out[c]] for c in range(ncol)]
-    return W, phis, lin
+    out = interp_1d_conservative(np.array(phis, dtype="float64"), th, b[::-1].copy())
+    lin_rev = [[model.enc_rat(v) for v in out[c]] for c in range(ncol)]
+    return W, phis, lin, lin_rev
 
 
-def grid_batch(thetas, bins, rng, centres, chunk, extra_first, names=None, tdtype="float64", bin_den=1, bypass=None):
+def grid_batch(thetas, bins, rng, centres, chunk, extra_first, names=None, tdtype="float64", bin_den=1, bypass=None,
+               affine=(0.0, 1.0), td_default=False):
     """the same through Grid.transform: columns along an extra dimension"""
     import numpy as np
     import xarray as xr
     import xgcm
 
     nm = names or (lambda x: x)
-    th = np.array(thetas, dtype="float64").astype(tdtype)
+    base, eps = affine
+    th = (base + eps * np.array(thetas, dtype="float64")).astype(tdtype)
     ncol = th.shape[0]
     n = th.shape[1] - 1 if not centres else th.shape[1]
-    ds = xr.Dataset(coords={nm("zc"): (nm("zc"), np.arange(n) + 0.5), nm("zo"): (nm("zo"), np.arange(n + 1) * 1.0),
+    # target_data left out: the axis' outer coordinate is the default (td_default; all columns then share it)
+    ds = xr.Dataset(coords={nm("zc"): (nm("zc"), np.arange(n) + 0.5), nm("zo"): (nm("zo"), th[0] if td_default else np.arange(n + 1) * 1.0),
                             nm("col"): (nm("col"), np.arange(ncol))})
     grid = xgcm.Grid(ds, coords={nm("Z"): {"center": nm("zc"), "outer": nm("zo")}}, periodic=False, autoparse_metadata=False)
     tdim = nm("zc") if centres else nm("zo")
     dims_t = (nm("col"), tdim) if extra_first else (tdim, nm("col"))
     tdata = xr.DataArray(th if extra_first else th.T, dims=dims_t, name=nm("theta"))
-    b = np.array(bins, dtype="float64") / bin_den
+    b = base + eps * np.array(bins, dtype="float64") / bin_den
     # bypass_checks is documented to apply to the linear and log methods only: it must change nothing here
     more = {} if bypass is None else {"bypass_checks": bool(bypass)}
 
-    def run(phi):
+    def run(phi, bb=None):
+        bb = b if bb is None else bb
         da = xr.DataArray(phi if extra_first else phi.T, dims=(nm("col"), nm("zc")) if extra_first else (nm("zc"), nm("col")), name=nm("phi"))
         td = tdata
         if chunk:
             da = da.chunk({nm("col"): 1})
             td = td.chunk({nm("col"): 1})
-        res = grid.transform(da, nm("Z"), b, target_data=td, method="conservative", **more)
+        if td_default:
+            res = grid.transform(da, nm("Z"), xr.DataArray(bb, dims=[nm("theta")]), method="conservative", **more)
+        else:
+            res = grid.transform(da, nm("Z"), bb, target_data=td, method="conservative", **more)
         newdim = [d for d in res.dims if d != nm("col")]
         res = res.transpose(nm("col"), *newdim)
         return np.asarray(res.values), newdim
@@ -93,7 +105,9 @@ def grid_batch(thetas, bins, rng, centres, chunk, extra_first, names=None, tdtyp
     phis = [[rng.randint(-5, 5) for _ in range(n)] for _ in range(ncol)]
     out, _ = run(np.array(phis, dtype="float64"))
     lin = [[model.enc_rat(v) for v in out[c]] for c in range(ncol)]
-    return W, phis, lin, newdim
+    out, _ = run(np.array(phis, dtype="float64"), b[::-1].copy())
+    lin_rev = [[model.enc_rat(v) for v in out[c]] for c in range(ncol)]
+    return W, phis, lin, lin_rev, newdim
 
 
 def execute(job):
@@ -102,15 +116,17 @@ def execute(job):
     recs = []
     try:
         if job["via"] == "kernel":
-            W, phis, lin = kernel_batch(job["thetas"], job["bins"], rng, job.get("tdtype", "float64"), job.get("bin_den", 1))
+            W, phis, lin, lin_rev = kernel_batch(job["thetas"], job["bins"], rng, job.get("tdtype", "float64"), job.get("bin_den", 1),
+                                                 tuple(job.get("affine", (0.0, 1.0))))
             newdim = ["-"]
             thetas = job["thetas"]
             scale = 1
         else:
             centres = job["via"] == "grid-centres"
-            W, phis, lin, newdim = grid_batch(job["thetas"], job["bins"], rng, centres, job.get("chunk", False),
-                                              job.get("extra_first", True), None, job.get("tdtype", "float64"),
-                                              job.get("bin_den", 1), job.get("bypass"))
+            W, phis, lin, lin_rev, newdim = grid_batch(job["thetas"], job["bins"], rng, centres, job.get("chunk", False),
+                                                       job.get("extra_first", True), None, job.get("tdtype", "float64"),
+                                                       job.get("bin_den", 1), job.get("bypass"), tuple(job.get("affine", (0.0, 1.0))),
+                                                       bool(job.get("td_default")))
             scale = 2 if centres else 1
             if centres:
                 thetas = []
@@ -125,7 +141,8 @@ def execute(job):
                          "tdtype": job.get("tdtype", "float64"), "bin_den": den, "bypass": str(job.get("bypass")),
                          "bins": [v * scale for v in job["bins"]], "phi": phis[c], "ncol": len(job["ids"]),
                          "chunk": bool(job.get("chunk")), "expect_newdim": ["-"] if job["via"] == "kernel" else ["theta"],
-                         "out": {"k": "weights", "W": W[c], "lin": lin[c], "newdim": newdim}})
+                         "affine": list(job.get("affine", (0.0, 1.0))), "td_default": bool(job.get("td_default")),
+                         "out": {"k": "weights", "W": W[c], "lin": lin[c], "lin_rev": lin_rev[c], "newdim": newdim}})
     except Exception as ex:
         for c, cid in enumerate(job["ids"]):
             recs.append({"id": cid, "ev": "Conservative", "via": job["via"], "theta": job["thetas"][c], "thetac": [],
@@ -164,8 +181,15 @@ def gen_jobs(rng, thorough):
             bins = bins[::-1]
         ids = list(range(cid + 1, cid + 1 + ncol))
         cid += ncol
+        tdtype = rng.choice(["float64", "float64", "float32", "int64", "int32"])
+        affine = (0.0, 1.0)
+        if tdtype == "float64" and rng.random() < 0.3:
+            affine = rng.choice([(1024.0, 2.0 ** -10), (1024.0, 2.0 ** -14), (-8.0, 0.5), (0.0, 2.0 ** -20)])
+        td_default = via == "grid-bounds" and rng.random() < 0.2
+        if td_default:
+            thetas = [thetas[0] for _ in thetas]
         jobs.append({"via": via, "thetas": thetas, "bins": bins, "ids": ids, "seed": cid, "bin_den": bin_den,
-                     "tdtype": rng.choice(["float64", "float64", "float32", "int64", "int32"]),
+                     "tdtype": tdtype, "affine": list(affine), "td_default": td_default,
                      "bypass": rng.choice([None, None, True, False]) if via != "kernel" else None,
                      "chunk": rng.random() < 0.4, "extra_first": rng.random() < 0.5})
     return jobs
@@ -224,6 +248,7 @@ def replay(ctx, rp):
         else:
             den = c.get("bin_den", 1)
             job = {"via": c["via"], "thetas": [[v // den for v in c["theta"]]], "bins": c["bins"], "ids": [c["id"]], "seed": 1}
+        job.update({"affine": c.get("affine", [0.0, 1.0]), "td_default": c.get("td_default", False)})
         job.update({"bin_den": c.get("bin_den", 1), "tdtype": c.get("tdtype", "float64"),
                     "bypass": {"True": True, "False": False}.get(c.get("bypass"))})
         recs += execute(job)
